@@ -168,11 +168,13 @@ def all_configs(fam):
     return [('Color666MPSDecoder', 'c', None)]
 
 
-def run_real(code, cfg, syndrome, dist):
-    """one real `decode` with its `_coset_probabilities` call recorded (recording proxy on the instance).
+def run_real(code, cfg, syndrome, dist, dec=None):
+    """one real `decode` with its `_coset_probabilities` call recorded (recording proxy on the instance, removed
+    afterwards); `dec` = an existing decoder object to reuse (decoder-object histories), else a fresh one.
     returns dict(f, ps, recs, out) — everything as plain lists / exact Fractions"""
     name, mode, stp = cfg
-    dec = make_decoder(name, mode, stp)
+    if dec is None:
+        dec = make_decoder(name, mode, stp)
     rec = {}
     orig = dec._coset_probabilities
 
@@ -186,9 +188,10 @@ def run_real(code, cfg, syndrome, dist):
             rec['recs'] = [r.to_bsf().copy() for r in out[1]]
         return out
     dec._coset_probabilities = proxy
+    s_arg = np.array(syndrome, dtype=int)
     try:
         with core.TimeLimit(DECODE_LIMIT):
-            out = dec.decode(code, np.array(syndrome, dtype=int), error_model=DistModel(dist), error_probability=0.1)
+            out = dec.decode(code, s_arg, error_model=DistModel(dist), error_probability=0.1)
             if 'f' not in rec:  # decode no longer goes through _coset_probabilities: observe it directly
                 proxy(tuple(float(x) for x in dist), dec.sample_recovery(code, np.array(syndrome, dtype=int)))
                 rec['direct'] = True
@@ -196,8 +199,11 @@ def run_real(code, cfg, syndrome, dist):
         return {'error': 'timeout'}
     except Exception as ex:  # any exception of the real decoder is part of the observed behaviour
         return {'error': type(ex).__name__ + ':' + str(ex)[:80]}
+    finally:
+        dec.__dict__.pop('_coset_probabilities', None)
     rec['out'] = np.array(out, dtype=int)
     rec['cfg'] = cfg
+    rec['syndrome_kept'] = bool(np.array_equal(s_arg, np.array(syndrome, dtype=int)))
     return rec
 
 
@@ -213,6 +219,8 @@ def verdict(code, syndrome, dist, D, n, r, exact_nums):
     f = r['f']
     if not np.array_equal(pt.bsp(f, code.stabilizers.T), s):
         return 'sample recovery does not carry the syndrome'
+    if not r.get('syndrome_kept', True):
+        return 'decode changed the syndrome array it was given'
     den = Fraction(D) ** n
     exact = [Fraction(x) / den for x in exact_nums]
     total = sum(exact)
@@ -579,15 +587,16 @@ def run(ctx):
             'exhaustive': False}}
     # further decoder networks inside the model (one helper module each: tensors of the real create_tn == model tensors,
     # model contraction == exact coset probability)
-    for name in NETWORK_HELPERS:
+    for name in NETWORK_HELPERS + CLASS_HELPERS:
         mod = importlib.import_module('qv.' + name)
         before = ctx.evaluations
         _t0 = _time.time()
         mod.cases(ctx)
         ctx.flush()
         T[name] = round(_time.time() - _t0, 1)
-        ctx.explored[name + '_network_tie'] = {'evaluations': ctx.evaluations - before, 'exhaustive': False,
-                                               'rule': (mod.__doc__ or '').strip().split('\n')[0][:300]}
+        ctx.explored[name + ('_network_tie' if name in NETWORK_HELPERS else '_inputs')] = {
+            'evaluations': ctx.evaluations - before, 'exhaustive': False,
+            'rule': (mod.__doc__ or '').strip().split('\n')[0][:300]}
     if getattr(ctx, 'nolean', False):
         print('[dev] part seconds (all)', T)
     return ctx.finish(RULE, search=search, explanation=(
@@ -976,13 +985,16 @@ def evaluate_input(meta):
 
 
 NETWORK_HELPERS = ['c10_rplanar', 'c10_rmps', 'c10_color', 'c10_rprmps']
+# further input classes (same helper protocol: cases(ctx), FAMILY, evaluate_input(meta)): the Y decoder on large
+# lattices / extreme probabilities / every residual class, and decoder-object histories of every TN decoder
+CLASS_HELPERS = ['c10_ybig', 'c10_hist']
 
 
 def search(m):
     meta = m.get('meta')
     if not meta or 'family' not in meta:
         return None
-    for name in NETWORK_HELPERS:
+    for name in NETWORK_HELPERS + CLASS_HELPERS:
         mod = importlib.import_module('qv.' + name)
         if meta.get('family') == getattr(mod, 'FAMILY', None):
             return mod.search(m) if hasattr(mod, 'search') else mod.evaluate_input(meta)
@@ -1005,7 +1017,10 @@ def replay(ctx, path):
                 i['dist'] = [float(x).hex() for x in i['dist']]
             metas.append(i)
         for meta in metas:
-            r = evaluate_input(meta)
-            print('replay', meta.get('family'), meta.get('size'), meta.get('syndrome', meta.get('sample')), '->', r)
+            mod = next((mm for mm in (importlib.import_module('qv.' + nm) for nm in CLASS_HELPERS)
+                        if meta.get('family') == mm.FAMILY), None)
+            r = mod.evaluate_input(meta) if mod is not None else evaluate_input(meta)
+            print('replay', meta.get('family'), meta.get('size'), meta.get('syndrome', meta.get('sample')), '->',
+                  str(r)[:1500])
             bad += bool(r)
     return 1 if bad else 0   # core.do_replay prints the VIOLATION line
